@@ -151,6 +151,8 @@ def gen_joint(rng, length, name):
             rep = do({"op": "call", "name": sn, "call": {"k": "receive", "chunk": rep["outcome"]["b"]}})
             if rep["outcome"]["k"] != "msgs":
                 log.append((len(reqs) - 1, sn, {"k": "probe: the server refuses a bind request although no operation is in progress"}))
+            elif not rep["outcome"]["ms"]:
+                log.append((len(reqs) - 1, sn, {"k": "probe: a bind request sent at quiescence (everything drained and delivered) does not reach the server application"}))
             else:
                 rep = do({"op": "call", "name": sn, "call": {"k": "bindResponse", "id": rep["outcome"]["ms"][0]["id"], "sasl": None, "code": 0, "mdn": C.tx(""),
                                                             "diag": C.tx(""), "controls": []}})
